@@ -695,10 +695,23 @@ fn maybe_runtype_any_of_discriminated(
                             })
                             .collect::<BTreeSet<_>>();
 
-                        // one tag value shared by every member (spelled differently, e.g. a
-                        // literal and an alias of it) does not discriminate: the mapping entry
-                        // would be this same union again
-                        if discriminator_strings.len() < 2 {
+                        // a tag value carried by every member (one value spelled differently, e.g.
+                        // a literal and an alias of it, or a member whose tag is the union of all
+                        // tags) does not discriminate: its mapping entry would be this same union
+                        // again, printed the same way without end
+                        let some_tag_selects_every_member = discriminator_strings.iter().any(|key| {
+                            object_vs.iter().all(|vs| {
+                                let value = vs
+                                    .get(&discriminator)
+                                    .expect("we already checked the discriminator exists")
+                                    .inner();
+                                extract_union(value, named_schemas)
+                                    .into_iter()
+                                    .filter_map(|it| it.extract_single_string_const())
+                                    .any(|it| it == *key)
+                            })
+                        });
+                        if some_tag_selects_every_member {
                             continue;
                         }
 
